@@ -170,12 +170,14 @@ def gen_doc0(rng):
         # inline XHTML with something for each post-processing step to do: relative URIs (resolution), style / event-handler attributes and
         # elements off the allow-list (sanitisation) -- still reference-free
         parts = ['<p><a href="rel/x.html">l</a> <img src="../i.png" alt="a"/></p>', '<p style="color: red" onclick="f()">styled</p>', "<div><script>x</script><b>kept</b></div>",
-                 '<blockquote cite="q/src">q</blockquote>', "<p>plain</p>", '<p><a href="/abs/y" style="float: left">m</a></p>', "<marquee>m</marquee>"]
+                 '<blockquote cite="q/src">q</blockquote>', "<p>plain</p>", '<p><a href="/abs/y" style="float: left">m</a></p>', "<marquee>m</marquee>",
+                 # attributes of the XML namespace (the one everyday namespace URI with upper-case letters) on elements whose attributes are KEPT
+                 '<p xml:lang="fr">bonjour <span xml:lang="de" xml:space="preserve">welt</span></p>', '<p xml:base="sub/"><a href="r.html" xml:lang="en">l</a></p>', '<span lang="it" xml:lang="it">ciao</span>']
         body, body2 = "".join(rng.sample(parts, rng.randint(1, 3))), "".join(rng.sample(parts, rng.randint(1, 3)))
         base = rng.choice(["", ' xml:base="http://base.example/dir/"'])
         return ('<feed xmlns="http://www.w3.org/2005/Atom"%s><title>t</title><id>i</id><updated>2005-01-01T00:00:00Z</updated><link href="self/alt"/><entry><title>e</title><id>j</id>'
-                '<link href="e/1"/><content type="xhtml"><div xmlns="http://www.w3.org/1999/xhtml">%s</div></content><summary type="xhtml"><div xmlns="http://www.w3.org/1999/xhtml">%s</div></summary></entry></feed>'
-                % (base, body, body2)).encode("utf-8")
+                '<link href="e/1"%s/><content type="xhtml"><div xmlns="http://www.w3.org/1999/xhtml">%s</div></content><summary type="xhtml"><div xmlns="http://www.w3.org/1999/xhtml">%s</div></summary></entry></feed>'
+                % (base, rng.choice(["", ' xml:lang="en"', ' xml:base="http://other.example/d/" xml:lang="fr"', ' xml:space="default"']), body, body2)).encode("utf-8")
     body = rng.choice(["<p>plain <b>bold</b> text</p>", "<div><ul><li>a</li><li>b</li></ul></div>", "<p>x<br/>y</p>", '<p><a href="http://example.org/">l</a> <em>e</em></p>', "<blockquote><p>q</p></blockquote>"])
     return ('<feed xmlns="http://www.w3.org/2005/Atom"><title>t</title><id>i</id><updated>2005-01-01T00:00:00Z</updated><entry><title>e</title><id>j</id>'
             '<content type="xhtml"><div xmlns="http://www.w3.org/1999/xhtml">%s</div></content><summary type="xhtml"><div xmlns="http://www.w3.org/1999/xhtml">%s</div></summary></entry></feed>' % (body, body)).encode("utf-8")
@@ -255,9 +257,33 @@ def correspondence(ctx):
     return res
 
 
+REBIND_NS = [("http://purl.org/dc/elements/1.1/", "creator", "Alice"), ("http://purl.org/rss/1.0/modules/content/", "encoded", "full text"), ("http://wellformedweb.org/CommentAPI/", "comment", "http://c.example/1"),
+             ("http://purl.org/rss/1.0/modules/slash/", "department", "dept"), ("http://purl.org/dc/terms/", "modified", "2007-01-01T10:00:00Z"), ("http://www.itunes.com/dtds/podcast-1.0.dtd", "author", "Bob"),
+             ("http://example.org/unrecognised/ns", "thing", "u")]
+
+
+def rebind_docs():
+    """deterministic: ONE prefix bound to different namespaces by sibling items (aggregated feeds copy items with their own declarations), and bound on the root and again on an item —
+    every ordered pair of seven namespaces; a declaration's scope is the element that carries it"""
+    for ua, la, ta in REBIND_NS:
+        for ub, lb, tb in REBIND_NS:
+            if ua == ub:
+                continue
+            yield ('<rss version="2.0"><channel><title>t</title><item xmlns:m="%s"><title>one</title><m:%s>%s</m:%s></item><item xmlns:m="%s"><title>two</title><m:%s>%s</m:%s></item>'
+                   '<item xmlns:m="%s"><title>three</title><m:%s>%s</m:%s></item></channel></rss>' % (ua, la, ta, la, ub, lb, tb, lb, ua, la, ta, la)).encode("utf-8")
+            yield ('<rss version="2.0" xmlns:m="%s"><channel><title>t</title><m:%s>%s</m:%s><item xmlns:m="%s"><title>two</title><m:%s>%s</m:%s></item><item><title>three</title></item></channel></rss>'
+                   % (ua, la, ta, la, ub, lb, tb, lb)).encode("utf-8")
+            # (a use of the prefix AFTER the re-binding element has closed is the open finding C19 probe/loose-namespacemap-not-scoped — the loose back end's prefix map is
+            #  document-global — and is probed there with its own witness; it is left out here so that this sweep stays specific)
+
+
 def search(ctx, focus=None):
     rng = ctx.rng
     failures, n, distinct = [], 0, set()
+    for d in rebind_docs():
+        n += 1
+        distinct.add((d, "None"))
+        failures += check_doc(d, None)
     for _ in range(ctx.n(500, 15000)):
         d = gen_doc(rng)
         opts = rng.choice(OPTS) if rng.random() < 0.4 else None
@@ -267,7 +293,7 @@ def search(ctx, focus=None):
     return {"evaluations": n, "distinct_nontrivial": len(distinct), "failures": failures,
             "rule": "well-formed reference-free feeds: vocabulary-wide documents (RSS 2.0 / RSS 1.0 / Atom 1.0 with dc, dcterms, itunes, media, georss, content, slash, wfw and "
                     "unknown extension elements), abstract feeds without markup-significant characters in the six XML formats, inline XHTML content (incl. relative URIs, style / event-handler "
-                    "attributes and elements off the allow-list, with and without xml:base), namespace arrangements (one recognised URI under two prefixes declared on root / item / element, re-bound prefixes, an unrecognised URI as default namespace and under a prefix) x the per-call options sanitize_html / resolve_relative_uris (default and five explicit settings); each parsed with "
+                    "attributes and elements off the allow-list, with and without xml:base), namespace arrangements (one recognised URI under two prefixes declared on root / item / element, re-bound prefixes, an unrecognised URI as default namespace and under a prefix; deterministically: one prefix bound by sibling items / by the root and an item to every ordered pair of seven namespaces) x the per-call options sanitize_html / resolve_relative_uris (default and five explicit settings); each parsed with "
                     "_XML_AVAILABLE True and False; feed, entries, version, namespaces compared recursively; finding key = difference class; distinct = distinct documents",
             "samples": [{"doc": gen_doc(vlib.random.Random(2)).decode()[:300]}]}
 
